@@ -5,7 +5,7 @@
 From RU Require Import Base.Prelude Base.Utf8 Base.Utf8Facts Model.AsciiSet Gen.Tables Model.PercentEncoding
   Model.HostT Model.UrlRecord Model.Parser Model.Setters Model.WF
   Proofs.ListN Proofs.C14_Set Proofs.C14_Enc Proofs.C14_Views Proofs.C02_Enc Proofs.C02_Parts
-  Proofs.C02_Opaque Proofs.C02_Path Proofs.C02_PathL1 Proofs.C02_Reach Proofs.C16_RT Proofs.C02_AuthParts.
+  Proofs.C02_Opaque Proofs.C02_Path Proofs.C02_PathL1 Proofs.C02_Reach Proofs.C16_RT Proofs.C02_AuthParts Proofs.C06_WFI Proofs.C06_FragQuery.
 
 Ltac splits := repeat match goal with |- _ /\ _ => split end.
 
@@ -234,4 +234,76 @@ Proof.
         -- apply (path_loop_ctx dbg st _ (c :: p)); [cbn [forallb]; unfold no_qhc; rewrite Hc; exact Hp' | exact HX].
       * apply (path_loop_ctx dbg st _ (c :: p)); [cbn [forallb]; unfold no_qhc; rewrite Hc; exact Hp' | exact HX].
     + rewrite Hc. destruct (c =? 47); apply (path_loop_ctx dbg st _ (c :: p)); try exact HX; cbn [forallb]; unfold no_qhc; rewrite Hc; exact Hp'.
+Qed.
+
+(* ================= fragment and query ================= *)
+(* the fragment state is the very function the setter calls *)
+Lemma pqf_fragment ovr st se ser x : nlen ser <= U32_MAX_P ->
+  parse_query_and_fragment ovr CUrlParser st se ser (35 :: x)
+  = POk (ser ++ 35 :: tnl_text T_FRAGMENT x, None, Some (nlen ser)).
+Proof.
+  intros Hb. unfold parse_query_and_fragment. rewrite inp_next_cons by reflexivity. cbn [N.eqb Pos.eqb].
+  rewrite to_u32_ok by exact Hb. cbn [pbind]. rewrite parse_fragment_text. rewrite <- app_assoc. reflexivity.
+Qed.
+
+Definition h_tail (X : list N) : Prop := match X with [] => True | c :: _ => c = 35 end.
+Definition after_hash (X : list N) : option (list N) := match X with [] => None | _ :: r => Some r end.
+
+Lemma flush_nil S ser : flush_part S utf8_encode ser [] = ser.
+Proof. unfold flush_part. cbn. apply app_nil_r. Qed.
+
+(* the query state in the contexts UrlParser and Setter differs only at '#' *)
+Lemma query_loop_ctx S x : forall X ser part, forallb no_h x = true -> h_tail X ->
+  parse_query_loop S utf8_encode true ser part (x ++ X)
+  = (fst (parse_query_loop S utf8_encode false ser part x), after_hash X).
+Proof.
+  induction x as [|c x IH]; intros X ser part Hx HX.
+  - cbn [app]. destruct X as [|d r]; [reflexivity|]. cbn [h_tail] in HX. subst d.
+    cbn [parse_query_loop is_tnl N.eqb Pos.eqb orb andb fst after_hash].
+    destruct part; [rewrite flush_nil|]; reflexivity.
+  - cbn [forallb] in Hx. apply andb_true_iff in Hx. destruct Hx as [Hc Hx]. unfold no_h in Hc. apply negb_true_iff in Hc.
+    cbn [app parse_query_loop]. rewrite Hc. cbn [andb]. destruct (is_tnl c); apply IH; assumption.
+Qed.
+
+Theorem parse_query_ctx st se ser x X : forallb no_h x = true -> h_tail X ->
+  parse_query None CUrlParser st se ser (x ++ X) = (ser ++ tnl_text (query_set st) x, after_hash X).
+Proof.
+  intros Hx HX. pose proof (parse_query_text st se ser x) as E. unfold parse_query in *. cbn [ctx_eqb query_enc] in *.
+  rewrite query_loop_ctx by assumption. rewrite E. reflexivity.
+Qed.
+
+(* the setter trims TAB/LF/CR at both ends first; both states skip them anyway *)
+Lemma filter_drop_while_tnl l : filter C06_FragQuery.not_tnl (drop_while is_tnl l) = filter C06_FragQuery.not_tnl l.
+Proof.
+  induction l as [|c r IH]; [reflexivity|]. cbn [drop_while].
+  destruct (is_tnl c) eqn:E; [|reflexivity]. cbn [filter]. unfold C06_FragQuery.not_tnl at 2. rewrite E. exact IH.
+Qed.
+
+Lemma filter_rev_N (g : N -> bool) l : filter g (rev l) = rev (filter g l).
+Proof.
+  induction l as [|c r IH]; [reflexivity|]. cbn [rev filter]. rewrite filter_app, IH. cbn [filter].
+  destruct (g c); [reflexivity | apply app_nil_r].
+Qed.
+
+Lemma tnl_text_trim S x : usv_list x -> tnl_text S (input_new_trim_tnl x) = tnl_text S x.
+Proof.
+  intros Hx. rewrite !tnl_text_spec by (try apply trim_matches_usv; exact Hx). do 2 f_equal.
+  unfold input_new_trim_tnl, trim_matches. rewrite filter_rev_N, filter_drop_while_tnl, filter_rev_N, rev_involutive.
+  apply filter_drop_while_tnl.
+Qed.
+
+Theorem pqf_query st se ser x X : forallb no_h x = true -> h_tail X ->
+  nlen ser <= U32_MAX_P -> nlen (ser ++ 63 :: tnl_text (query_set st) x) <= U32_MAX_P ->
+  parse_query_and_fragment None CUrlParser st se ser (63 :: x ++ X)
+  = POk (match after_hash X with
+         | None => (ser ++ 63 :: tnl_text (query_set st) x, Some (nlen ser), None)
+         | Some r => ((ser ++ 63 :: tnl_text (query_set st) x) ++ 35 :: tnl_text T_FRAGMENT r, Some (nlen ser),
+                      Some (nlen (ser ++ 63 :: tnl_text (query_set st) x)))
+         end).
+Proof.
+  intros Hx HX Hb1 Hb2. unfold parse_query_and_fragment. rewrite inp_next_cons by reflexivity.
+  replace (63 =? 35) with false by reflexivity. replace (63 =? 63) with true by reflexivity.
+  rewrite to_u32_ok by exact Hb1. cbn [pbind]. rewrite parse_query_ctx by assumption.
+  rewrite <- app_assoc. cbn [app]. destruct (after_hash X) as [r|]; [|reflexivity].
+  rewrite to_u32_ok by exact Hb2. cbn [pbind]. rewrite parse_fragment_text. rewrite <- app_assoc. reflexivity.
 Qed.
